@@ -149,6 +149,16 @@ def oracle(A, v, m, d, dt, hermA, lam_reach_min=None):
             return f'eigh_krylov: inconsistent sizes w{w.shape} u{u.shape} (n={n}, numiter={m})'
         if np.iscomplexobj(w) or not np.all(np.isfinite(w)):
             return 'eigh_krylov: Ritz values are not finite real numbers'
+        # a single requested Ritz pair: one value, one vector, the same lowest pair
+        try:
+            w1, u1 = run(lambda: krylov.eigh_krylov(Afunc, v, m, 1))
+        except Exception as ex:
+            return f'eigh_krylov(numeig=1) raises {type(ex).__name__}: {ex}'
+        w1 = np.asarray(w1); u1 = np.asarray(u1)
+        if w1.shape != (1,) or u1.shape != (n, 1):
+            return f'eigh_krylov(numeig=1): inconsistent sizes w{w1.shape} u{u1.shape} (n={n})'
+        if abs(w1[0] - w[0]) > 1e-9 * nA or np.abs(u1[:, 0] - u[:, 0]).max() > 1e-9:
+            return 'eigh_krylov(numeig=1) does not return the lowest Ritz pair of the full call'
         lam = np.linalg.eigvalsh(A)
         rq = float(np.real(np.vdot(v, A @ v)) / nv ** 2)
         tol = 1e-8 * nA
